@@ -619,11 +619,26 @@ pub fn execute_p(ctx: &Ctx, scn: &PScn, ex: &mut Exec, fp: &mut Fnv) -> Option<V
             let hard: Vec<&TraceLine> = out.trace.iter().filter(|t| t.fault == "err").collect();
             if let Some(t) = hard.first() {
                 if out.exit == Some(0) {
-                    violation = Some(Violation::new(
-                        "error_swallowed",
-                        t.call.clone(),
-                        format!("{}: {} on tracked call {} ({}) failed with {} but the program exited 0", what, t.call, t.idx, t.path, worldp::errno_name(t.errno)),
-                    ));
+                    // exit 0 after a failed call is legitimate only if the program really worked around it (retried,
+                    // fell back to another way of writing): then everything it leaves behind equals what a fault-free
+                    // run with the same entropy seed leaves behind on the same disk image
+                    let twin_disk = worldp::Disk::create(ctx, &scn.image);
+                    let twin = worldp::run_incarnation(ctx, &twin_disk, &Incarnation { plan: Vec::new(), ..scn.inc.clone() }, 0);
+                    worldp::outcome_digest(fp, &twin);
+                    ex.count("process_incarnations", 1);
+                    let same = twin.exit == Some(0) && twin.stdout == out.stdout && twin_disk.snapshot() == disk.snapshot();
+                    if same {
+                        ex.count("hard_faults_absorbed_by_the_program(outputs equal the fault-free twin)", 1);
+                    } else {
+                        violation = Some(Violation::new(
+                            "error_swallowed",
+                            t.call.clone(),
+                            format!(
+                                "{}: {} on tracked call {} ({}) failed with {} but the program exited 0, and what it left behind differs from a fault-free run",
+                                what, t.call, t.idx, t.path, worldp::errno_name(t.errno)
+                            ),
+                        ));
+                    }
                 }
             }
         }
